@@ -1,55 +1,228 @@
+// x04 replays the bodies enumerated by TLC from spec/ingest/BulkIngest.tla (Elasticsearch bulk / doc, Cloudflare
+// logpush, Datadog metrics) into the REAL code: each abstract body is concretised (hostile strings, key orders,
+// number spellings, CRLF, trailing newline or none) and sent either through the exported parser function with the
+// context the controller builds ("parser") or through the real writer router of an e2e world down to the store
+// ("route").  The rows observed are compared with the rows of the definition (want) and of the as-coded mechanism
+// (coded) exported by TLC.  A seeded family of larger bodies crosses the flush thresholds.
+//
+// usage: x04 -in cases.json -out result.json -seed N -big K
+//
+// verdict letters per case:  B = satisfies the definition and equals the as-coded model, W = satisfies the definition
+// only (a modelled deviation is absent), C = equals the as-coded model only (a modelled deviation shows),
+// N = neither.
 package main
 
 import (
+	"encoding/json"
+	"flag"
 	"fmt"
+	"math/rand"
 	"os"
+	"sort"
 	"strings"
+	"sync/atomic"
 
 	"verif/harness/e2e"
+	"verif/harness/fakech"
 )
 
-func dump(w *e2e.World) {
-	for _, q := range []string{"SELECT fingerprint, timestamp_ns, string, value, type FROM samples_v3 ORDER BY timestamp_ns", "SELECT toUInt64(date), fingerprint, labels, type FROM time_series"} {
-		r, err := w.Store.DB.Query(q)
-		if err != nil {
-			fmt.Println("ERR", err)
-			continue
+type Detail struct {
+	Index    int      `json:"index"`
+	Verdict  string   `json:"verdict"`
+	Proto    string   `json:"proto"`
+	Via      string   `json:"via"`
+	Cls      string   `json:"cls"`
+	Blame    []string `json:"blame"`
+	Demanded string   `json:"demanded_kind"`
+	DemMsg   string   `json:"demanded_msg"`
+	Coded    string   `json:"coded_kind"`
+	CodedMsg string   `json:"coded_msg"`
+	Request  string   `json:"request"`
+	Body     string   `json:"body"`
+	BodyLen  int      `json:"body_len"`
+	Status   string   `json:"observed_status"`
+	Rows     []string `json:"observed_rows"`
+	Case     *Case    `json:"case,omitempty"`
+	Sig      string   `json:"signature"`
+}
+
+func describe(o *Observed) (string, []string) {
+	st := fmt.Sprintf("ok=%v code=%d %s", o.OK, o.Code, o.Err)
+	var rows []string
+	for i, g := range o.Rows {
+		if i >= 8 {
+			rows = append(rows, fmt.Sprintf("... %d rows", len(o.Rows)))
+			break
 		}
-		for _, row := range r.Rows {
-			fmt.Printf("   %v\n", row)
-		}
+		rows = append(rows, fmt.Sprintf("ts=%d type=%d value=%v labels=%v text=%s", g.TsNs, g.Type, g.Val, o.Series[g.Fp], short(g.Text)))
 	}
-	w.Store.DB.Truncate("samples_v3")
-	w.Store.DB.Truncate("time_series")
+	return st, rows
+}
+
+func bodyHead(b []byte) string {
+	s := string(b)
+	if len(s) > 1500 {
+		// keep the structure visible: shorten long runs
+		s = s[:1500] + "..."
+	}
+	return s
 }
 
 func main() {
-	w, err := e2e.New(e2e.Options{NoReader: true})
+	in := flag.String("in", "", "")
+	out := flag.String("out", "", "")
+	seed := flag.Int64("seed", 1, "")
+	nbig := flag.Int("big", 1, "seeded large bodies per (protocol, binding, well-formed|faulty)")
+	flag.Parse()
+	raw, err := os.ReadFile(*in)
 	if err != nil {
-		fmt.Println(err)
+		fmt.Fprintln(os.Stderr, err)
 		os.Exit(2)
 	}
-	type P struct{ m, p, ct, b string }
-	long := strings.Repeat("x", 70000)
-	for _, p := range []P{
-		{"POST", "/idx1/_doc", "application/json", `{"message":"hello","@timestamp":"2023-01-01T00:00:00Z"}`},
-		{"PUT", "/idx1/_doc/7", "application/json", `{"message":"hello2"}`},
-		{"POST", "/idx1/_create/8", "application/json", `{"message":"hello3"}`},
-		{"POST", "/idx1/_bulk", "application/x-ndjson", "{\"index\":{\"_index\":\"other\",\"_id\":\"1\"}}\n{\"m\":\"a\"}\n{\"delete\":{\"_id\":\"2\"}}\n{\"create\":{}}\r\n{\"m\":\"b\"}\r\n\n{\"update\":{\"_id\":\"3\"}}\n{\"doc\":{\"m\":\"c\"}}\n"},
-		{"POST", "/_bulk", "application/x-ndjson", "{\"index\":{\"_index\":\"t1\"}}\n{\"m\":\"a\"}\n{\"index\":{\"_index\":\"t2\"}}\n{\"m\":\"b\"}"},
-		{"POST", "/_bulk", "application/x-ndjson", "{\"index\":{\"_index\":\"t1\"}}\n{\"m\":\"a\"}\n{\"index\":{\"_index\":\"t2\"}}\n{\"m\":\"" + long + "\"}\n{\"index\":{\"_index\":\"t1\"}}\n{\"m\":\"c\"}\n"},
-		{"POST", "/_bulk", "application/x-ndjson", "{\"index\":{\"_index\":\"t1\"}}\n{\"m\":\"a\"}\n{\"index\":{\"_index\":\"t2\"}}\n{\"delete\":\"x\",\"m\":\"b\"}\n{\"index\":{\"_index\":\"t1\"}}\n{\"index\":\"c\"}\n"},
-		{"POST", "/_bulk", "application/x-ndjson", "{\"index\":{\"_index\":\"t1\"}}\n{\"m\":\"a\"}\n{\"index\":{\"_index\":\"t2\"}}\n{\"m\":\n{\"index\":{\"_index\":\"t1\"}}\n{\"m\":\"c\"}\n"},
-		{"POST", "/cf/v1/insert?ddsource=cfx", "application/json", "{\"EventTimestampMs\":1700000000123,\"ScriptName\":\"s\",\"Outcome\":\"ok\"}\n{\"When\":1700000000123456789,\"ActionType\":\"a\",\"ActionResult\":true}\r\n{\"ScriptName\":\"t\"}"},
-		{"POST", "/cf/v1/insert", "application/json", "{\"EventTimestampMs\":1700000000123,\"ScriptName\":\"s\"}\n\n{\"ScriptName\":\"t\"}"},
-		{"POST", "/api/v2/series", "application/json", `{"series":[{"metric":"m.a","type":3,"points":[{"timestamp":1700000000,"value":1.5},{"value":2,"timestamp":1700000010}],"resources":[{"name":"h1","type":"host"}],"tags":["env:prod"]},{"metric":"m.a","points":[{"timestamp":1700000000,"value":7}],"resources":[{"name":"h1","type":"host"}],"tags":["env:dev"]}]}`},
-	} {
-		code, body := w.Push(p.m, p.p, p.ct, []byte(p.b), nil)
-		pb := p.b
-		if len(pb) > 200 {
-			pb = pb[:200] + "..."
+	var cases []Case
+	if err := json.Unmarshal(raw, &cases); err != nil {
+		fmt.Fprintln(os.Stderr, err)
+		os.Exit(2)
+	}
+	w, err := e2e.New(e2e.Options{NoReader: true, OnDo: func(b *fakech.Block) error { atomic.AddInt64(&doStarted, 1); return nil }})
+	if err != nil {
+		fmt.Fprintln(os.Stderr, "e2e world:", err)
+		os.Exit(2)
+	}
+	rnd := rand.New(rand.NewSource(*seed))
+	verdicts := make([]byte, len(cases))
+	var details []Detail
+	var infra []string
+	sigCount := map[string]int{}
+	classes := map[string]int{}
+	runs := 0
+	shapes := map[string]bool{}
+	for ci, c := range cases {
+		variants := 1
+		if c.Proto == "doc" && c.Rid {
+			variants = 3
 		}
-		fmt.Printf("%s %s %q -> %d %s\n", p.m, p.p, pb, code, body)
-		dump(w)
+		worst := byte('B')
+		for v := 0; v < variants; v++ {
+			req := concretise(c, rnd, v)
+			var o *Observed
+			if c.Via == "parser" {
+				o = runParser(c.Proto, req)
+			} else {
+				o = runRoute(w, req)
+			}
+			runs++
+			if o.Infra != "" {
+				infra = append(infra, fmt.Sprintf("case %d (%s/%s): %s", ci, c.Proto, c.Via, o.Infra))
+				continue
+			}
+			want, coded := expect(c, req, c.Want), expect(c, req, c.Coded)
+			var all []string
+			for _, t := range req.lineText {
+				all = append(all, t)
+			}
+			dk, dm := demanded(c, o, want, all)
+			ck, cm := asCoded(c, o, coded)
+			if dk == "infra" || ck == "infra" {
+				infra = append(infra, fmt.Sprintf("case %d: %s %s", ci, dm, cm))
+				continue
+			}
+			var vd byte
+			switch {
+			case dk == "" && ck == "":
+				vd = 'B'
+			case dk == "":
+				vd = 'W'
+			case ck == "":
+				vd = 'C'
+			default:
+				vd = 'N'
+			}
+			if vd != 'B' {
+				bl := append([]string{}, c.Blame...)
+				sort.Strings(bl)
+				sig := fmt.Sprintf("%c|%s|%s|%s|%s|%s|%s", vd, c.Proto, c.Via, c.Cls, strings.Join(bl, "+"), dk, ck)
+				sigCount[sig]++
+				if sigCount[sig] <= 2 {
+					st, rows := describe(o)
+					cc := c
+					details = append(details, Detail{Index: ci, Verdict: string(vd), Proto: c.Proto, Via: c.Via, Cls: c.Cls, Blame: bl, Demanded: dk, DemMsg: dm,
+						Coded: ck, CodedMsg: cm, Request: fmt.Sprintf("%s %s ctx=%v", req.Method, req.URL, req.Ctx), Body: bodyHead(req.Body), BodyLen: len(req.Body),
+						Status: st, Rows: rows, Case: &cc, Sig: sig})
+				}
+			}
+			rank := map[byte]int{'B': 0, 'W': 1, 'C': 2, 'N': 3}
+			if rank[vd] > rank[worst] {
+				worst = vd
+			}
+		}
+		verdicts[ci] = worst
+		classes[c.Proto+"/"+c.Via+"/"+c.Cls]++
+		sb, _ := json.Marshal(c.Body)
+		shapes[c.Proto+string(sb)] = true
+	}
+
+	// seeded larger bodies
+	type BigRes struct {
+		Proto, Via string
+		Fault      bool
+		Docs       int
+		Bytes      int
+		Chunks     int
+		Stored     int
+		OK         bool
+		Kind, Msg  string
+	}
+	var bigs []BigRes
+	for _, proto := range []string{"bulk", "cf", "ddm", "doc"} {
+		for _, via := range []string{"parser", "route"} {
+			for _, fault := range []bool{false, true} {
+				if proto == "doc" && fault {
+					continue
+				}
+				for k := 0; k < *nbig; k++ {
+					b := bigCase(proto, via, fault, rnd)
+					var o *Observed
+					if via == "parser" {
+						o = runParser(proto, b.Req)
+					} else {
+						o = runRoute(w, b.Req)
+					}
+					runs++
+					if o.Infra != "" {
+						infra = append(infra, fmt.Sprintf("big %s/%s: %s", proto, via, o.Infra))
+						continue
+					}
+					br := BigRes{Proto: proto, Via: via, Fault: fault, Docs: b.Docs, Bytes: len(b.Req.Body), Chunks: o.Chunks, Stored: len(o.Rows), OK: o.OK}
+					if fault {
+						if o.OK {
+							br.Kind, br.Msg = "acked-malformed", "a large body with a malformed line is acknowledged"
+						} else {
+							br.Kind, br.Msg = match(o, b.Exp, true)
+						}
+					} else if !o.OK {
+						br.Kind, br.Msg = "rejected-wellformed", fmt.Sprintf("well-formed large body answered with an error (%d %s)", o.Code, o.Err)
+					} else {
+						br.Kind, br.Msg = match(o, b.Exp, false)
+					}
+					if br.Kind == "infra" {
+						infra = append(infra, br.Msg)
+						continue
+					}
+					bigs = append(bigs, br)
+				}
+			}
+		}
+	}
+	w.Close()
+	res := map[string]any{
+		"runs": runs, "cases": len(cases), "distinct_shapes": len(shapes), "verdicts": string(verdicts), "details": details,
+		"signature_counts": sigCount, "classes": classes, "infra": infra, "big": bigs,
+	}
+	b, _ := json.MarshalIndent(res, "", " ")
+	if *out != "" {
+		os.WriteFile(*out, b, 0644)
+	} else {
+		fmt.Println(string(b))
 	}
 }
